@@ -200,6 +200,13 @@ class Value:
     def _load(self):
         if self.addr is None:
             return self.val
+        # like GDB, a value is fetched from the inferior once (it is lazy until first use) and is a snapshot afterwards
+        if getattr(self, '_fetched', None) is not None:
+            return self._fetched[0]
+        self._fetched = (self._load_now(),)
+        return self._fetched[0]
+
+    def _load_now(self):
         t = self.type
         if t.ptr or _is_ptr(t.ct):
             return C.c_void_p.from_buffer_copy(_read(self.addr, C.sizeof(C.c_void_p))).value or 0
